@@ -206,7 +206,7 @@ prop("C09", shards=16, level="fault_enumeration",
                 "modelled.")
 
 prop("C10", shards=16,
-     technique="rapid property-based testing of call histories against a byte-at-a-time AES-CFB8 reference; encrypted Conn pairs over an in-memory duplex",
+     technique="rapid property-based testing of call histories against a byte-at-a-time AES-CFB8 reference; encrypted Conn pairs over an in-memory duplex and over ListenMC/Accept/DialMC on loopback with encryption enabled mid-stream",
      rule="Key 16/24/32 bytes, IV 16, message up to 4096 bytes, both directions; a sequence of 1..12 XORKeyStream calls with lengths "
           "from {0,1,2,15,16,17,31,32,33,34,47,48,49,64,100,1000} and uniform 0..200, each call in place / into a disjoint dst of "
           "equal length / into a longer dst (partial overlap is excluded: cipher.Stream forbids it); one in four histories runs "
@@ -250,7 +250,7 @@ prop("C15", shards=16, level="fault_enumeration",
                 "a torn write keeps a prefix of its bytes (no reordering, no sector-level corruption).")
 
 prop("C16", shards=16,
-     technique="rapid property-based testing against a reference RCON frame writer; generated login/command sessions over loopback TCP",
+     technique="rapid property-based testing against a reference RCON frame writer; generated login/command sessions over loopback TCP and raw logins with chosen request ids over an in-memory connection",
      rule="C16Frames: 1..20 frames with ids/types over int32 (boundaries and random), payloads 0..4086 bytes (empty, all-NUL, non-"
           "UTF-8, text): WritePacket bytes == reference layout (LE length = 10+len, id, type, payload, 00 00); the concatenation is "
           "read back frame by frame, exactly consumed, then EOF is an error. C16Length: crafted frames with declared lengths "
@@ -285,7 +285,7 @@ prop("C17", shards=16,
                 "verbs are outside the rendering clause.")
 
 prop("C18", shards=16,
-     technique="rapid property-based testing against math/big and crypto/md5 restatements of the Java definitions; structured signature forgeries with a positive control",
+     technique="rapid property-based testing against math/big and crypto/md5 restatements of the Java definitions; structured signature forgeries with a positive control; real server-side and client-side login handshakes over in-memory connections with the session-server HTTP calls recorded by a stub transport",
      rule="C18Name: names (empty, ASCII, non-ASCII, 1 KiB, invalid UTF-8, [A-Za-z0-9_]{1,16}): offline.NameToUUID == MD5 of "
           "'OfflinePlayer:'+name with version 3 / variant bits forced. C18Digest: (serverID, 16-byte secret, 0..200-byte key) with a "
           "deterministic nonce search steering the SHA-1 into classes {any, leading zero nibble, leading zero byte, two leading zero "
@@ -325,7 +325,7 @@ prop("C19", shards=16, pkg="props_race", race=True, timeout=(1200, 7200),
                 "Schedule-dependent failures do not shrink (rapid reports them as flaky; the driver still reports the violation).")
 
 prop("C20", shards=16, pkg="props_race", race=True, timeout=(1200, 7200),
-     technique="rapid-generated goroutine plans with yield perturbation under the race detector; recorded histories checked for linearizability (porcupine) against a FIFO-with-close specification plus direct invariants",
+     technique="rapid-generated goroutine plans with yield perturbation under the race detector; recorded histories checked for linearizability (porcupine) against a FIFO-with-close specification plus direct invariants; thousands of rounds of the bounded queue at the moment it becomes full",
      rule="C20Queue: LinkedListQueue and ChannelQueue(n in {0,1,4,64}); 1..8 producers x 1..8 consumers x one closer that runs after "
           "the producers' WaitGroup; items tagged (producer, seq); a generated yield (Gosched x1..3, 10/50 us sleep) before every "
           "push/pull and before Close; consumers optionally parked before the first push. Oracle: every history: accepted pushes "
